@@ -357,8 +357,11 @@ def rule_pivotflow(P) -> RuleResult:
         raise AnalysisError('anchor vanished: Compiler._compile_select')
     SELF, NODE = Sym('COMPILER'), Sym('SELECT')
     FIRST, SECOND = Sym('PIVOT_ROW_COLUMN'), Sym('PIVOT_BLOCK_COLUMN')
+    queries = {}
     for with_pivot in (True, False):
         made = []
+        qargs = []
+        queries[with_pivot] = qargs
 
         def on_call(fname, fval, recv, args, kwargs, ex, node):
             f = str(fname).split('.')[-1]
@@ -373,18 +376,22 @@ def rule_pivotflow(P) -> RuleResult:
             if f == '_compile_group_by':
                 return T('tuple', (SList([]), SList([0, 1]), None))
             if f == '_compile_order_by':
-                return T('tuple', (SList([]), None))
+                return T('tuple', (SList([]), Sym('ORDER_SPEC')))
             if f == '_compile_pivot_by':
                 return SList([FIRST, SECOND]) if with_pivot else None
             if f == 'EvalQuery':
+                from .sx_compiler import ctor_args
+                qargs.append(tuple(list(x.items) if isinstance(x, SList) and not x.opaque_tail else x for x in ctor_args(P, 'EvalQuery', args, kwargs)))
                 return T('new', ('EvalQuery', ()))
             if f == 'EvalPivot':
                 made.append((tuple(args), tuple(kwargs)))
                 return T('new', ('EvalPivot', (len(made) - 1,)))
             return NotImplemented
-        def on_attr(base, attr, ex):
+        def on_attr(base, attr, ex, _wp=with_pivot):
             if attr == 'is_aggregate' and isinstance(base, Sym) and base.name.startswith('TARGET'):
                 return base.name == 'TARGET3'
+            if base == NODE and attr == 'pivot_by':
+                return Sym('PIVOT_BY_CLAUSE') if _wp else None
             return NotImplemented
         n = 0
         for p in Engine(P, on_call=on_call, on_attr=on_attr).paths(fi, {'self': SELF, fi.params[1]: NODE}):
@@ -414,6 +421,17 @@ def rule_pivotflow(P) -> RuleResult:
                          f'`{", ".join(show(x)[:90] for x in vals)}`', loc(fi))
         if n == 0:
             raise AnalysisError(f'{fi.fq}: no returning path on terms')
+    # the query that is pivoted is the query the statement is without PIVOT BY: same table, targets, condition, grouping, ORDER BY
+    # specification, LIMIT and DISTINCT (ORDER BY and LIMIT decide which rows there are to reshape)
+    a, b = queries[True], queries[False]
+    if a and b and repr(a[-1]) != repr(b[-1]):
+        diff = [i for i, (x, y) in enumerate(zip(a[-1], b[-1])) if repr(x) != repr(y)]
+        names = ['table', 'targets', 'condition', 'group indexes', 'HAVING index', 'ORDER BY specification', 'LIMIT', 'DISTINCT']
+        res.fail(fi.fq, 'pivotflow:query', f'with PIVOT BY the compiled query differs from the one compiled without it in its '
+                 f'{", ".join(names[i] if i < len(names) else "argument " + str(i) for i in diff) or "arguments"}: the pivot reshapes other rows than '
+                 f'the un-pivoted statement returns', loc(fi))
+    elif a and b:
+        res.ok({'pivoted_query': 'the same EvalQuery arguments as without PIVOT BY'})
     return res
 
 
